@@ -18,6 +18,10 @@ structure D where
   s : St := {}
   cert : CertRes := .none
 
+def parseW (w : String) : WAns :=
+  if w.startsWith "ok" then .n (if w.length > 2 then (w.drop 3).toString.toNat! else 1000000000)
+  else if w == "z0" then .zero else match parseEv w with | some e => .ev e | none => .ev .sslErr
+
 def parseH (d : D) (w : String) : HAns :=
   if w.startsWith "ok" then .done d.cert else match parseEv w with | some e => .ev e | none => .ev .sslErr
 
@@ -29,7 +33,7 @@ def render (s : St) (r : Res) (hs wr rd : Nat) (tx : Bytes) : String :=
     | .n k p => if p.isEmpty then s!"{k} | -" else s!"{k} | {showBytes p}"
     | .err e => s!"-1 {FramingD.errName e} | -"
   let t := if tx.isEmpty then "-" else showBytes tx
-  s!"{res} | {s.cnt.toApp} {s.cnt.fromApp} {s.cnt.toLower} {s.cnt.fromLower} | {showState s.state} c={s.sslCondition} w={s.sslWants} | hs={hs} wr={wr} rd={rd} tx+{t}"
+  s!"{res} | {s.cnt.toApp} {s.cnt.fromApp} {s.cnt.toLower} {s.cnt.fromLower} | {showState s.state} c={s.sslCondition} w={s.sslWants} pend={s.pend.length} | hs={hs} wr={wr} rd={rd} tx+{t}"
 
 def b2n (b : Bool) : Nat := if b then 1 else 0
 
@@ -40,23 +44,23 @@ def step (d : D) (ws : List String) : D × String :=
     let d0 : D := { s := { auth := auth == "1" }, cert := c }
     let s' := tryFinishHandshake d0.s (parseH d0 h)
     ({ d0 with s := s' }, s!"{showState s'.state} c={s'.sslCondition} w={s'.sslWants}")
-  | ["S", m, h, w] =>
+  | "S" :: m :: h :: wsw =>
     let buf := hexD m
-    let wa : WAns := if w.startsWith "ok" then .n (if w.length > 2 then (w.drop 3).toString.toNat! else 1000000000)
-                     else if w == "z0" then .zero else match parseEv w with | some e => .ev e | none => .ev .sslErr
     let hsCalled := b2n (d.s.state = .handshaking)
-    let (s', r, called) := send d.s buf (parseH d h) wa
+    let (s', r, nw) := send d.s buf (parseH d h) (wsw.map parseW)
     let tx := s'.written.drop d.s.written.length
-    ({ d with s := s' }, render s' r hsCalled (b2n called) 0 tx)
-  | ["R", cap, h, r] =>
+    ({ d with s := s' }, render s' r hsCalled nw 0 tx)
+  | "R" :: cap :: h :: r :: wsw =>
     let ra : RAns := if r.startsWith "d:" then .data (hexD (r.drop 2).toString) else match parseEv r with | some e => .ev e | none => .ev .sslErr
     let hsCalled := b2n (d.s.state = .handshaking)
-    let (s', res, called) := receive d.s cap.toNat! (parseH d h) ra
-    ({ d with s := s' }, render s' res hsCalled 0 (b2n called) [])
-  | ["F", h, l] =>
+    let (s', res, called, nw) := receive d.s cap.toNat! (parseH d h) (wsw.map parseW) ra
+    let tx := s'.written.drop d.s.written.length
+    ({ d with s := s' }, render s' res hsCalled nw (b2n called) tx)
+  | "F" :: h :: l :: wsw =>
     let hsCalled := b2n (d.s.state = .handshaking)
-    let (s', res) := finish d.s (parseH d h) (if l == "ok" then none else some (FramingD.errNum l))
-    ({ d with s := s' }, render s' res hsCalled 0 0 [])
+    let (s', res, nw) := finish d.s (parseH d h) (wsw.map parseW) (if l == "ok" then none else some (FramingD.errNum l))
+    let tx := s'.written.drop d.s.written.length
+    ({ d with s := s' }, render s' res hsCalled nw 0 tx)
   | ["U", cond, hp] =>
     let (bell, lower, called, ab) := connUpdate d.s cond.toNat! (hp == "1")
     if ab then (d, "abort") else
